@@ -1,10 +1,19 @@
-//! C15 over sinks of different *types*: the lock-step sessions use one recording sink (a handle with a pointer in it);
-//! here the same sessions run on a zero-sized sink (the usual shape of a microcontroller's serial handle: `struct Uart;`
-//! writing to a peripheral), on a sink padded to 512 bytes and on `&mut` of a sink. The state lives in a thread-local, the
-//! invariant is C15's: when a call returns, every byte it wrote has been followed by a flush.
+//! The lock-step sessions run on one kind of sink (a handle with a pointer in it), one kind of buffer (the harness's
+//! `OwnedBuf`) and one order of builder calls. Here the same generated sessions run on other *shapes* of the public API:
+//! a zero-sized sink (the usual shape of a microcontroller's serial handle: `struct Uart;` writing to a peripheral), a sink
+//! padded to 512 bytes, `&mut` of a sink; `[u8; N]` arrays, `&mut [u8]` slices and the builder's default buffers; builder
+//! calls in other orders; `Cli::new`. Sink state lives in a thread-local.
+//!
+//! Three things are judged, each by the check whose property it is:
+//!  * C15: when a call returns, every byte it wrote has been followed by a flush - on every shape (`Diff::Flush`);
+//!  * C01: what the handler receives does not depend on the shape (`Diff::Dispatch`);
+//!  * C06: what a terminal displays (emulator fed with the bytes) does not depend on the shape (`Diff::Display`).
+//! The first shape uses the buffers and the builder order of the lock-step sessions, whose verdicts the other shapes inherit
+//! by being indistinguishable from it. How bytes are split over `write` calls and where flushes fall may differ.
 use std::cell::RefCell;
 
 use embedded_cli::{
+    buffer::Buffer,
     cli::{Cli, CliBuilder, CliHandle},
     command::RawCommand,
     service::{CommandProcessor, FromRaw, ProcessError},
@@ -12,25 +21,36 @@ use embedded_cli::{
 
 use crate::{
     lockstep::Case,
+    screen::Screen,
     session::{script_text, Base, Op, OwnedBuf, PROMPTS},
 };
+
+#[derive(Clone, Copy, Debug, PartialEq, Eq)]
+pub enum Diff {
+    Flush,
+    Dispatch,
+    Display,
+}
 
 #[derive(Default)]
 pub struct SinkLog {
     pub written: usize,
     pub unflushed: usize,
     pub flushes: usize,
+    pub bytes: Vec<u8>,
+    pub dispatches: Vec<String>,
 }
 
 thread_local! {
     pub static LOG: RefCell<SinkLog> = RefCell::new(SinkLog::default());
 }
 
-fn on_write(n: usize) {
+fn on_write(buf: &[u8]) {
     LOG.with(|l| {
         let mut l = l.borrow_mut();
-        l.written += n;
-        l.unflushed += n;
+        l.written += buf.len();
+        l.unflushed += buf.len();
+        l.bytes.extend_from_slice(buf);
     });
 }
 fn on_flush() {
@@ -48,7 +68,7 @@ impl embedded_io::ErrorType for Uart {
 }
 impl embedded_io::Write for Uart {
     fn write(&mut self, buf: &[u8]) -> Result<usize, Self::Error> {
-        on_write(buf.len());
+        on_write(buf);
         Ok(buf.len())
     }
     fn flush(&mut self) -> Result<(), Self::Error> {
@@ -66,7 +86,7 @@ impl embedded_io::ErrorType for Big {
 impl embedded_io::Write for Big {
     fn write(&mut self, buf: &[u8]) -> Result<usize, Self::Error> {
         self.0[0] = self.0[0].wrapping_add(1);
-        on_write(buf.len());
+        on_write(buf);
         Ok(buf.len())
     }
     fn flush(&mut self) -> Result<(), Self::Error> {
@@ -85,6 +105,8 @@ impl<W: embedded_io::Write<Error = core::convert::Infallible>> CommandProcessor<
         let k = self.calls;
         self.calls += 1;
         let name = raw.name().to_string();
+        let shown = format!("{} {:?}", name, raw.args().args().map(|a| format!("{:?}", a)).collect::<Vec<_>>());
+        LOG.with(|l| l.borrow_mut().dispatches.push(shown));
         if self.typed {
             <Base<'a> as FromRaw<'a>>::parse(raw).map_err(ProcessError::ParseError)?;
         }
@@ -107,15 +129,24 @@ impl<W: embedded_io::Write<Error = core::convert::Infallible>> CommandProcessor<
     }
 }
 
-fn drive<W: embedded_io::Write<Error = core::convert::Infallible>>(kind: &str, mut cli: Cli<W, core::convert::Infallible, OwnedBuf, OwnedBuf>, c: &Case) -> Result<bool, (String, String)> {
-    let check = |what: &str| -> Result<(), (String, String)> {
+pub struct Transcript {
+    pub bytes: Vec<u8>,
+    pub dispatches: Vec<String>,
+    pub dispatched: bool,
+}
+
+type Fail = (Diff, String, String);
+
+fn drive<W: embedded_io::Write<Error = core::convert::Infallible>, CB: Buffer, HB: Buffer>(kind: &str, mut cli: Cli<W, core::convert::Infallible, CB, HB>, c: &Case) -> Result<Transcript, Fail> {
+    let check = |what: &str| -> Result<(), Fail> {
         let (w, u, f) = LOG.with(|l| {
             let l = l.borrow();
             (l.written, l.unflushed, l.flushes)
         });
         if u != 0 {
             return Err((
-                format!("{} sink: after {} every byte written has been followed by a flush", kind, what),
+                Diff::Flush,
+                format!("{}: after {} every byte written has been followed by a flush", kind, what),
                 format!("{} of {} bytes written so far are still unflushed ({} flushes seen)", u, w, f),
             ));
         }
@@ -144,34 +175,113 @@ fn drive<W: embedded_io::Write<Error = core::convert::Infallible>>(kind: &str, m
         }
         check(&format!("op #{} {:?}", i, op))?;
     }
-    Ok(p.calls > 0)
+    Ok(LOG.with(|l| {
+        let l = l.borrow();
+        Transcript {
+            bytes: l.bytes.clone(),
+            dispatches: l.dispatches.clone(),
+            dispatched: p.calls > 0,
+        }
+    }))
 }
 
-fn bufs(c: &Case) -> (OwnedBuf, OwnedBuf) {
-    (OwnedBuf(vec![0u8; c.cfg.cmd_buf]), OwnedBuf(vec![0u8; c.cfg.hist_buf]))
-}
+/// Buffer sizes for which an array variant exists (const generics); the last one is the builder's default
+const MENU: [(usize, usize); 5] = [(8, 16), (16, 0), (5, 7), (64, 64), (40, 100)];
 
-/// The session on each kind of sink. Ok(non-trivial) or (expected, observed).
-pub fn run(c: &Case) -> Result<bool, (String, String)> {
-    let prompt = PROMPTS[c.cfg.prompt % PROMPTS.len()];
-    let mut nt = false;
-    // zero-sized
+fn reset() {
     LOG.with(|l| *l.borrow_mut() = SinkLog::default());
-    let (cb, hb) = bufs(c);
+}
+
+const BASE: &str = "a zero-sized sink, the harness's buffers and builder calls writer - command - history - prompt";
+
+fn same(what: &str, base: &Transcript, other: &Transcript) -> Result<(), Fail> {
+    if base.dispatches != other.dispatches {
+        let at = base.dispatches.iter().zip(other.dispatches.iter()).position(|(a, b)| a != b).unwrap_or(base.dispatches.len().min(other.dispatches.len()));
+        return Err((
+            Diff::Dispatch,
+            format!("{}: the handler receives what it receives with {}", what, BASE),
+            format!("dispatch #{} differs: {:?} / {:?} ({} / {} dispatches)", at, other.dispatches.get(at), base.dispatches.get(at), other.dispatches.len(), base.dispatches.len()),
+        ));
+    }
+    if base.bytes != other.bytes {
+        let (mut a, mut b) = (Screen::new(), Screen::new());
+        a.feed(&base.bytes);
+        b.feed(&other.bytes);
+        if a.inconclusive.is_none() && b.inconclusive.is_none() && (a.all_lines() != b.all_lines() || a.row != b.row || a.col != b.col) {
+            let row = a.all_lines().iter().zip(b.all_lines().iter()).position(|(x, y)| x != y).unwrap_or(a.row.min(b.row));
+            return Err((
+                Diff::Display,
+                format!("{}: a terminal shows what it shows with {}", what, BASE),
+                format!("line {}: {:?} / {:?}; cursor ({}, {}) / ({}, {})", row, b.line_text(row), a.line_text(row), b.row, b.col, a.row, a.col),
+            ));
+        }
+    }
+    Ok(())
+}
+
+/// The session on each shape. Ok(non-trivial) or (what differs, expected, observed).
+pub fn run(c0: &Case) -> Result<bool, Fail> {
+    let mut c = c0.clone();
+    let k = (c.cfg.cmd_buf + c.cfg.hist_buf) % 8;
+    let menu = if k < MENU.len() { Some(k) } else { None };
+    if let Some(k) = menu {
+        c.cfg.cmd_buf = MENU[k].0;
+        c.cfg.hist_buf = MENU[k].1;
+    }
+    let c = &c;
+    let prompt = PROMPTS[c.cfg.prompt % PROMPTS.len()];
+    let bufs = || (OwnedBuf(vec![0u8; c.cfg.cmd_buf]), OwnedBuf(vec![0u8; c.cfg.hist_buf]));
+    // 1: zero-sized sink, harness buffers, writer - command - history - prompt (or the deprecated constructor)
+    reset();
+    let (cb, hb) = bufs();
     #[allow(deprecated)]
     let cli = if c.cfg.use_new { Cli::new(Uart, cb, hb) } else { CliBuilder::default().writer(Uart).command_buffer(cb).history_buffer(hb).prompt(prompt).build() };
     let Ok(cli) = cli;
-    nt |= drive("zero-sized", cli, c)?;
-    // large
-    LOG.with(|l| *l.borrow_mut() = SinkLog::default());
-    let (cb, hb) = bufs(c);
-    let Ok(cli) = CliBuilder::default().writer(Big([0; 512])).command_buffer(cb).history_buffer(hb).prompt(prompt).build();
-    nt |= drive("512-byte", cli, c)?;
-    // a reference
-    LOG.with(|l| *l.borrow_mut() = SinkLog::default());
-    let (cb, hb) = bufs(c);
+    let base = drive("zero-sized sink", cli, c)?;
+    // `Cli::new` has the default prompt; the other shapes go through the builder with that prompt
+    let prompt = if c.cfg.use_new { "$ " } else { prompt };
+    // 2: large sink, builder calls in the opposite order
+    reset();
+    let (cb, hb) = bufs();
+    let Ok(cli) = CliBuilder::default().prompt(prompt).history_buffer(hb).command_buffer(cb).writer(Big([0; 512])).build();
+    let what = "512-byte sink, builder calls prompt - history - command - writer";
+    same(what, &base, &drive(what, cli, c)?)?;
+    // 3: a reference to a sink, another order
+    reset();
+    let (cb, hb) = bufs();
     let mut u = Uart;
-    let Ok(cli) = CliBuilder::default().writer(&mut u).command_buffer(cb).history_buffer(hb).prompt(prompt).build();
-    nt |= drive("&mut", cli, c)?;
-    Ok(nt)
+    let Ok(cli) = CliBuilder::default().command_buffer(cb).prompt(prompt).writer(&mut u).history_buffer(hb).build();
+    let what = "`&mut` sink, builder calls command - prompt - writer - history";
+    same(what, &base, &drive(what, cli, c)?)?;
+    // 4: slices as buffers (aligned, zeroed)
+    reset();
+    let (mut v1, mut v2) = (vec![0u8; c.cfg.cmd_buf], vec![0u8; c.cfg.hist_buf]);
+    let Ok(cli) = CliBuilder::default().writer(Uart).prompt(prompt).command_buffer(&mut v1[..]).history_buffer(&mut v2[..]).build();
+    let what = "`&mut [u8]` buffers";
+    same(what, &base, &drive(what, cli, c)?)?;
+    // 5: arrays as buffers
+    macro_rules! arrays {
+        ($a:expr, $b:expr) => {{
+            reset();
+            let Ok(cli) = CliBuilder::default().writer(Uart).command_buffer([0u8; $a]).history_buffer([0u8; $b]).prompt(prompt).build();
+            let what = "`[u8; N]` buffers";
+            same(what, &base, &drive(what, cli, c)?)?;
+        }};
+    }
+    match menu {
+        Some(0) => arrays!(8, 16),
+        Some(1) => arrays!(16, 0),
+        Some(2) => arrays!(5, 7),
+        Some(3) => arrays!(64, 64),
+        Some(4) => {
+            arrays!(40, 100);
+            // the builder's own buffers
+            reset();
+            let Ok(cli) = CliBuilder::default().writer(Uart).prompt(prompt).build();
+            // (their size is the library's to choose, so only the flush invariant inside `drive` is judged here)
+            drive("the builder's default buffers", cli, c)?;
+        }
+        _ => {}
+    }
+    Ok(base.dispatched)
 }
